@@ -1,5 +1,5 @@
 (* GenSelector.v - GENERATED from /repo by /verif/translator; do not edit.
-   source cssutils/css/selector.py sha1 99be1dfb97b1
+   source cssutils/css/selector.py sha1 985d8b3cce66
    source cssutils/serialize.py sha1 c63358564408
 *)
 From Coq Require Import List NArith ZArith Bool.
